@@ -240,7 +240,42 @@ func isEnvError(err error) bool {
 	return false
 }
 
+// keyReaders are the directives whose setup looks at the key of the block it is in (found by reading: the tls directive
+// judges host names). Their configurations are also validated in a block with two keys, in both orders: the block is
+// accepted exactly when it is accepted for each key alone.
+var keyReaders = map[string]bool{"tls": true}
+
 func runConfig(rep *kit.Report, dirName, text string, realStart bool, local map[string]int64) {
+	if keyReaders[dirName] && strings.HasPrefix(text, "localhost:0 {") && ((strings.Count(text, "\n") == 5 && len(strings.Fields(text)) <= 9) || (strings.Count(text, "\n") == 3 && len(strings.Fields(text)) <= 5)) {
+		// (lines of at most one argument, and sub-blocks of one line with at most one head argument and one argument: every
+		// validation leaves a certificate cache behind, which bounds how many a shard can make)
+		// (validation only: loading a block with a public name would try to obtain a certificate for it)
+		rest := strings.TrimPrefix(text, "localhost:0 {")
+		verdict := func(keys string) (ok bool, what string) {
+			t := keys + " {" + rest
+			curText.Store(&t)
+			curStart.Store(time.Now().UnixNano())
+			defer curStart.Store(0)
+			rep.Eval(1)
+			input := casket.CasketfileInput{Contents: []byte(t), Filepath: "Casketfile", ServerTypeName: "http"}
+			err, pv := guarded(func() error { return casket.ValidateAndExecuteDirectives(input, nil, true) })
+			casket.VerifPurgeEventHooks()
+			if pv != nil {
+				rep.Violation("C11/panic/validate/"+dirName, fmt.Sprintf("validation panicked: %v", pv), cfgCase{t, fmt.Sprint(pv), nil})
+				return false, "panic"
+			}
+			return err == nil, fmt.Sprint(err)
+		}
+		okA, whatA := verdict("localhost:0")
+		okB, whatB := verdict("sub.example.com:0")
+		for _, keys := range []string{"sub.example.com:0, localhost:0", "localhost:0, sub.example.com:0"} {
+			ok, what := verdict(keys)
+			if ok != (okA && okB) {
+				rep.Violation("C11/validation-of-a-block-with-two-keys-differs-from-its-keys-taken-alone/"+dirName, fmt.Sprintf("keys %q: validate says %s; alone: localhost:0 -> %s, sub.example.com:0 -> %s", keys, what, whatA, whatB), cfgCase{keys + " {" + rest, what, nil})
+			}
+		}
+		local["two-key blocks validated"]++
+	}
 	rep.Eval(1)
 	curText.Store(&text)
 	recentMu.Lock()
@@ -359,7 +394,7 @@ func confirmHang(texts []string, scratch string) bool {
 
 func main() {
 	rep := kit.NewReport("C11", "exploration",
-		"every registered http directive x argument lists of length 0..3 (thorough 4) over an 18-value lexical-class alphabet, plus sub-blocks of one (thorough two) line(s) starting with each keyword of the directive's own vocabulary (string literals of its case clauses and comparisons, extracted from the source at run time) x 0..2 (3) arguments, after 0..1 (2) head arguments; each configuration validated, loaded and, when accepted, really started on an ephemeral port; distinct_nontrivial = outcome classes per directive")
+		"every registered http directive x argument lists of length 0..3 (thorough 4) over an 18-value lexical-class alphabet, plus sub-blocks of one (thorough two) line(s) starting with each keyword of the directive's own vocabulary (string literals of its case clauses and comparisons, extracted from the source at run time) x 0..2 (3) arguments, after 0..1 (2) head arguments; each configuration validated, loaded and, when accepted, really started on an ephemeral port (for the directive that reads its block's key, tls, also validated in a block with two keys, in both orders, against the verdicts for each key alone); distinct_nontrivial = outcome classes per directive")
 	if !rep.IsWorker() {
 		rep.Assume("commands named by on/startup/shutdown are drawn from the same harmless alphabet; files are relative to a scratch working directory")
 		// (validation leaves a certificate cache with its maintenance goroutine behind for every configuration - harmless for
